@@ -481,6 +481,10 @@ func (s *Server) handleNewConnection(ctx context.Context, rwc io.ReadWriteCloser
 	scanner := bufio.NewScanner(rwc)
 	scanner.Split(transactionScanner)
 
+	// A transaction that carries one field of the largest size (65,535 bytes of data) is longer than the scanner's default
+	// token limit of 64 KiB; without a larger limit such a request ends the connection without a reply.
+	scanner.Buffer(nil, 2*bufio.MaxScanTokenSize)
+
 	scanner.Scan()
 
 	// The address may have been banned while this peer was holding its login back: look again before the login is
